@@ -360,10 +360,10 @@ def native_replay(build, job, vals, outdir, tag):
             os.remove(o)
         except OSError:
             pass
-    if "REPLAY-ASSUME-FAIL" in out:
-        return "not_reproduced", out[-1500:], rf
     if rc == 1 and "REPLAY-ASSERT-FAIL" in out:
         return "reproduced", out[-1500:], rf
+    if "REPLAY-ASSUME-FAIL" in out:
+        return "not_reproduced", out[-1500:], rf
     if rc != 0:
         return "reproduced", "sanitizer/abort rc=%d\n%s" % (rc, out[-2500:]), rf
     return "not_reproduced", out[-1500:], rf
